@@ -1,7 +1,7 @@
 /-
 M-Layer: executable model of the glyph bookkeeping of `defcon.objects.layer.Layer`
 (Lib/defcon/objects/layer.py) and of `UnicodeData.add/removeGlyphData`
-(Lib/defcon/objects/uniData.py), as the code stands after the F4 fix.
+(Lib/defcon/objects/uniData.py), as the code stands after the F4, F107 and F108 fixes.
 
   disk    the bound glyph set's contents (name ↦ record of what layer-level queries can see)
   loaded  `_glyphs` (dict order), with the glyph's dirty flag
@@ -60,6 +60,21 @@ def uniAdd (m : Cmap) (name : String) : List Nat → Cmap
     let l := namesAt m v
     uniAdd (AL.set m v (if name ∈ l then l else l ++ [name])) name vs
 
+/-- the lazy constructor's `cmap[code].append(glyphName)` for a LOADED glyph: no membership test, one
+append per element of `glyph.unicodes` (a list that repeats a code point lists the name twice) -/
+def uniAppend (m : Cmap) (name : String) : List Nat → Cmap
+  | [] => m
+  | v :: vs => uniAppend (AL.set m v (namesAt m v ++ [name])) name vs
+
+/-- `[code for code, names in unicodeData.items() if glyphName in names]` -/
+def codesOf (m : Cmap) (name : String) : List Nat := (m.filter (fun p => name ∈ p.2)).map Prod.fst
+
+/-- `UnicodeData.glyphNameForUnicode` : the first name listed under the code point -/
+def glyphNameForUnicode (m : Cmap) (c : Nat) : Option String := (namesAt m c).head?
+
+/-- `c in unicodeData` -/
+def hasCode (m : Cmap) (c : Nat) : Bool := AL.contains m c
+
 /-! ### primitives -/
 
 def isLoaded (s : State) (n : String) : Bool := AL.contains s.loaded n
@@ -80,11 +95,15 @@ def insertGlyph (s : State) (n : String) (r : GRec) (dirty : Bool) : State :=
       | none => none
       | some m => if r.unicodes.isEmpty then some m else some (uniAdd m n r.unicodes) }
 
-/-- `loadGlyph` -/
+def withUni (s : State) (u : Option Cmap) : State := { s with uni := u }
+
+/-- `loadGlyph`: the glyph object is inserted while its unicodes are still empty and is then filled by `readGlyph`
+with its notifications disabled, so the unicode data (which, if it exists, already lists the glyph from the scan
+of the glyph set) is not touched -/
 def load (s : State) (n : String) : Except Err State :=
   match AL.get? s.disk n with
   | none => .error .keyError
-  | some r => if n ∈ s.sched then .error .keyError else .ok (insertGlyph s n r false)
+  | some r => if n ∈ s.sched then .error .keyError else .ok (withUni (insertGlyph s n r false) s.uni)
 
 /-- `__getitem__` : the record of glyph `n`, loading it if necessary -/
 def getItem (s : State) (n : String) : Except Err (State × GRec) :=
@@ -118,13 +137,18 @@ def deleteGlyph (s : State) (n : String) : Except Err State :=
     | .error e => .error e
     | .ok (s', r) => .ok (dropGlyph (forgetUni s' n r.unicodes) n)
 
-/-- `newGlyph` -/
-def newGlyph (s : State) (n : String) : Except Err State :=
+/-- store a glyph object with record `r` under `n`, replacing whatever the layer shows under that name:
+`if name in self and self._unicodeData is not None: removeGlyphData(name, self[name].unicodes)`, then `_insertGlyph`
+(the shape shared by `newGlyph` and, since F107, by `_glyphNameChange`) -/
+def putGlyph (s : State) (n : String) (r : GRec) : Except Err State :=
   if n ∈ visible s ∧ s.uni.isSome then
     match getItem s n with
     | .error e => .error e
-    | .ok (s', r) => .ok (insertGlyph (forgetUni s' n r.unicodes) n {} true)
-  else .ok (insertGlyph s n {} true)
+    | .ok (s', r0) => .ok (insertGlyph (forgetUni s' n r0.unicodes) n r true)
+  else .ok (insertGlyph s n r true)
+
+/-- `newGlyph` -/
+def newGlyph (s : State) (n : String) : Except Err State := putGlyph s n {}
 
 /-- `del layer[name]` -/
 def delete (s : State) (n : String) : Except Err State :=
@@ -162,7 +186,9 @@ def touch (s : State) (n : String) : Except Err State :=
   | .error e => .error e
   | .ok (s1, r) => .ok (setLoaded s1 n r s1.uni)
 
-/-- `layer[old].name = new` (`Glyph._set_name` guard, then `Layer._glyphNameChange`) -/
+/-- `layer[old].name = new` (`Glyph._set_name` guard, then `Layer._glyphNameChange`: the old name is deleted, its
+code points are removed once more, and the glyph object is stored under the new name — where it REPLACES a glyph
+the layer may show under that name, whose code points leave the map first: F107) -/
 def rename (s : State) (old new : String) : Except Err State :=
   match getItem s old with
   | .error e => .error e
@@ -171,7 +197,7 @@ def rename (s : State) (old new : String) : Except Err State :=
     else
       match deleteGlyph s1 old with
       | .error e => .error e
-      | .ok s2 => .ok (insertGlyph (forgetUni s2 old r.unicodes) new r true)
+      | .ok s2 => putGlyph (forgetUni s2 old r.unicodes) new r
 
 /-- `insertGlyph(glyph, name)` = `newGlyph(name)` then `copyDataFromGlyph` -/
 def insert (s : State) (n : String) (r : GRec) : Except Err State :=
@@ -182,6 +208,59 @@ def insert (s : State) (n : String) (r : GRec) : Except Err State :=
     | .error e => .error e
     | .ok s2 => editRest s2 n r.comps r.image r.outlineLoaded r.outlineFast
 
+/-- `glyph.unicode = v` on `layer[n]`: the whole list is replaced by `[v]` (by `[]` for `None`) -/
+def setUnicode (s : State) (n : String) (v : Option Nat) : Except Err State := setUnicodes s n v.toList
+
+/-- Another program rewrites the GLIF of glyph `n` (new record `r`) and the layer is told `reloadGlyphs([n])`.
+* `n` loaded: `glyph.unicodes = []` then `readGlyph` assigns the file's list, both announced to the layer
+  (`removeGlyphData(old); addGlyphData([])`, then `removeGlyphData([]); addGlyphData(new)` — the calls with `[]`
+  change nothing, and an assignment the setter's guard skips would have changed nothing either); the glyph is clean;
+* `n` not loaded: `loadGlyph`, which does not touch the map; then (F108) the name is removed from every entry
+  that lists it (`codesOf`) and added under the code points just read.
+Where the glyph has no file (it exists only in memory) the harness assigns the same content in memory. -/
+def reload (s : State) (n : String) (r : GRec) : Except Err State :=
+  if n ∉ visible s then .error .keyError
+  else if onDisk s n then
+    let s0 : State := { s with disk := AL.set s.disk n r }
+    match AL.get? s0.loaded n with
+    | some (r0, _) =>
+      .ok { s0 with loaded := AL.set s0.loaded n (r, false),
+                    uni := s0.uni.map (fun m => uniAdd (uniRemove m n r0.unicodes) n r.unicodes) }
+    | none =>
+      let s1 := withUni (insertGlyph s0 n r false) s0.uni
+      .ok (withUni s1 (s1.uni.map (fun m => uniAdd (uniRemove m n (codesOf m n)) n r.unicodes)))
+  else
+    match setUnicodes s n r.unicodes with
+    | .error e => .error e
+    | .ok s1 => editRest s1 n r.comps r.image r.outlineLoaded r.outlineFast
+
+/-- `unicodeData.unicodeForGlyphName(n)` when the data belong to the layer the font looks glyphs up in (its
+default layer): `if n not in font: None`, else `font[n]` (which loads the glyph) and its first code point -/
+def fwd (s : State) (n : String) : State × Option Nat :=
+  match getItem s n with
+  | .ok (s', r) => (s', r.unicodes.head?)
+  | .error _ => (s, none)
+
+/-- the base name `pseudoUnicodeForGlyphName` falls back to: none for names starting with `.` or `_` and for
+names without `.` and `_`; else the part before the first `.`, and of that the part before the first `_` -/
+def baseName (n : String) : Option String :=
+  let cs := n.toList
+  match cs with
+  | [] => none
+  | c :: _ =>
+    if c = '.' ∨ c = '_' then none
+    else if '.' ∉ cs ∧ '_' ∉ cs then none
+    else some (String.ofList (cs.takeWhile (fun c => c ≠ '.' ∧ c ≠ '_')))
+
+/-- `unicodeData.pseudoUnicodeForGlyphName(n)` -/
+def pseudo (s : State) (n : String) : State × Option Nat :=
+  match fwd s n with
+  | (s1, some v) => (s1, some v)
+  | (s1, none) =>
+    match baseName n with
+    | none => (s1, none)
+    | some b => fwd s1 b
+
 /-- `Layer.save(glyphSet)` in place: dirty loaded glyphs written, scheduled names deleted -/
 def save (s : State) : State :=
   let disk1 := s.loaded.foldl (fun d (p : String × (GRec × Bool)) =>
@@ -190,10 +269,12 @@ def save (s : State) : State :=
   { s with disk := disk2, loaded := s.loaded.map (fun p => (p.1, (p.2.1, false))), sched := [] }
 
 /-- first access to `layer.unicodeData` builds the map: loaded glyphs not scheduled for
-deletion (dict order), then the glyph set's other names minus pending deletions -/
+deletion (dict order; one unguarded append per element of the glyph's list), then the glyph set's other names
+minus pending deletions (ufoLib's `getUnicodes` scanner reports every code point of a GLIF once, so the name is
+appended once per distinct code point: a guarded add) -/
 def buildUni (s : State) : Cmap :=
   let m1 := s.loaded.foldl (fun m (p : String × (GRec × Bool)) =>
-    if p.1 ∈ s.sched then m else uniAdd m p.1 p.2.1.unicodes) []
+    if p.1 ∈ s.sched then m else uniAppend m p.1 p.2.1.unicodes) []
   s.disk.foldl (fun m (p : String × GRec) =>
     if isLoaded s p.1 ∨ p.1 ∈ s.sched then m else uniAdd m p.1 p.2.unicodes) m1
 
@@ -231,6 +312,10 @@ inductive Op where
   | save
   | touchUni
   | touch (n : String)
+  | setUnicode (n : String) (v : Option Nat)
+  | reload (n : String) (r : GRec)
+  | fwd (n : String)
+  | pseudo (n : String)
 deriving Repr
 
 def step (s : State) : Op → Except Err State
@@ -244,6 +329,10 @@ def step (s : State) : Op → Except Err State
   | .save => .ok (save s)
   | .touchUni => .ok (touchUni s)
   | .touch n => touch s n
+  | .setUnicode n v => setUnicode s n v
+  | .reload n r => reload s n r
+  | .fwd n => .ok (fwd s n).1
+  | .pseudo n => .ok (pseudo s n).1
 
 /-- a failing operation raises before it changes anything the queries can see; the model keeps
 the pre-state (the implementation may have loaded a glyph on the way) -/
